@@ -89,6 +89,9 @@ func RunCheck(t *testing.T, prop string) {
 		run.Breadcrumb(fmt.Sprintf("case=%d seed=%d class=%s", i, seed, class))
 		t0 := time.Now()
 		w.Run()
+		if el := time.Since(t0); el > 15*time.Second {
+			fmt.Printf("slow-exec case=%d class=%s n=%d maxlen=%d events=%d delivered=%d wall=%s\n", i, class, len(sc.Members), sc.MaxLen, w.Events, w.Delivered, el)
+		}
 		if sc.BLS {
 			fmt.Printf("bls-exec case=%d n=%d events=%d delivered=%d wall=%s\n", i, len(sc.Members), w.Events, w.Delivered, time.Since(t0))
 		}
